@@ -52,7 +52,7 @@ def _pos(sy, *names):
 # ----------------------------------------------------------------------------------
 # TA: continuous state + continuous choice + constraint + auxiliary function with parameter
 # ----------------------------------------------------------------------------------
-def TA(T=2, nw=5, nc=3, sym_k=False, sym_g=False, beta_sym=True, lower=False, int_init=False):
+def TA(T=2, nw=5, nc=3, sym_k=False, sym_g=False, beta_sym=True, lower=False, int_init=False, borrow=False):
     from lcm import Model
 
     def utility(c, w, inc, tc, tw, ti):
@@ -70,9 +70,16 @@ def TA(T=2, nw=5, nc=3, sym_k=False, sym_g=False, beta_sym=True, lower=False, in
     def lo_constraint(c, lo):
         return c >= lo  # a lower bound: the infeasible grid choices are a *prefix* of the grid
 
+    def b_constraint(next_w, g):
+        # a constraint on the OUTPUT of a transition function with a parameter that has the same name as
+        # a parameter of that function (params["b_constraint"]["g"] vs params["next_w"]["g"])
+        return next_w >= g
+
     funcs = dict(utility=utility, inc=inc, next_w=next_w, c_constraint=c_constraint)
     if lower:
         funcs["lo_constraint"] = lo_constraint
+    if borrow:
+        funcs["b_constraint"] = b_constraint
     model = Model(
         n_periods=T,
         functions=funcs,
@@ -90,6 +97,8 @@ def TA(T=2, nw=5, nc=3, sym_k=False, sym_g=False, beta_sym=True, lower=False, in
         }
         if lower:
             p["lo_constraint"] = {"lo": mk.real("lo")}
+        if borrow:
+            p["b_constraint"] = {"g": mk.real("bmin")}
         return p
 
     def assume(sy):
@@ -98,6 +107,8 @@ def TA(T=2, nw=5, nc=3, sym_k=False, sym_g=False, beta_sym=True, lower=False, in
             out.append(sy["k"] <= 0)  # some choice is feasible in every state (c=1 <= w-k for w>=1)
         if "g" in sy:
             out += [sy["g"] >= 0, sy["g"] <= 1]
+        if "bmin" in sy and T > 1:
+            out.append(sy["bmin"] <= 0)  # c=1 stays feasible in every state (w - 1 + g >= 0 >= bmin)
         return out
 
     def init(mk, n):
@@ -105,7 +116,7 @@ def TA(T=2, nw=5, nc=3, sym_k=False, sym_g=False, beta_sym=True, lower=False, in
             return {"w": mk.int("w0", (n,))}  # a continuous state supplied as an INTEGER array
         return {"w": mk.real("w0", (n,))}
 
-    return Tmpl(f"TA[T={T},nw={nw},nc={nc},k={'sym' if sym_k else 0},g={'sym' if sym_g else '1/2'},lower={lower},int_init={int_init}]", model, params, assume, init)
+    return Tmpl(f"TA[T={T},nw={nw},nc={nc},k={'sym' if sym_k else 0},g={'sym' if sym_g else '1/2'},lower={lower},int_init={int_init}{',borrow' if borrow else ''}]", model, params, assume, init)
 
 
 # ----------------------------------------------------------------------------------
